@@ -58,8 +58,19 @@ class UserBase(BaseException):
     pass
 
 
+class UserFlaky(Exception):
+    """some instances can be rebuilt from their args, others cannot (keyword-only extra field that
+    is appended to args): what glom learns from one instance must not be applied to the next"""
+    def __init__(self, msg, *, extra=None):
+        if extra is None:
+            super().__init__(msg)
+        else:
+            super().__init__(msg, extra)
+        self.extra = extra
+
+
 USER = {c.__name__: c for c in (UserErr, UserValueErr, UserKeyErr, UserKwOnly, UserArity,
-                                UserRewrite, UserBase)}
+                                UserRewrite, UserBase, UserFlaky)}
 
 BASE_ONLY = ('KeyboardInterrupt', 'SystemExit', 'GeneratorExit', 'UserBase')
 GLOM_USER = ('UGlomErr', 'UGlomErrInit', 'UGlomKwOnly', 'UGlomArity', 'UGlomMixed', 'UGlomRewrite')
@@ -145,6 +156,8 @@ class Catalogue:
             e = c(code=msg)
         elif name in ('UserArity', 'UGlomArity'):
             e = c(msg, 'b')
+        elif name == 'UserFlaky':
+            e = c(msg, extra='x') if desc.get('variant') == 'bad' else c(msg)
         elif name == 'SystemExit':
             e = SystemExit(3)
         elif name in ('KeyboardInterrupt', 'GeneratorExit'):
